@@ -322,3 +322,17 @@ Definition validate_or_filter (name : list N) (repl : N) (l : list N) : fres :=
 (* what the filter hands on: the input itself when it was valid, the filtered text otherwise *)
 Definition filtered_text (r : fres) (l : list N) : list N :=
   match r with FFiltered o => o | _ => l end.
+
+(* ---------- form text widget (src/form.cpp: widgets::base_text::load and validate) ---------- *)
+(* load: (valid flag, code_points_); `enc` is the encoding name of the context's locale.  None = encoding without a
+   built-in validator (conversion fall-back, not modelled) or out of fuel (never) *)
+Definition text_load (charset : bool) (enc value : list N) : option (bool * N) :=
+  if charset then match valid_named enc value 0 with NRes ok n => Some (ok, n) | _ => None end
+  else Some (true, N.of_nat (length value)).
+(* validate (after a load, so set() holds): the limits are ints converted to size_t;
+   code_points_ < size_t(low_) || (high_ >= 0 && code_points_ > size_t(high_)) -> invalid *)
+Definition size_t_of_int (z : Z) : N := Z.to_N (z mod 2 ^ 64).
+Definition text_validate (low high : Z) (st : bool * N) : bool :=
+  fst st && negb ((snd st <? size_t_of_int low) || ((0 <=? high)%Z && (size_t_of_int high <? snd st))).
+Definition text_widget (charset : bool) (enc value : list N) (low high : Z) : option bool :=
+  option_map (text_validate low high) (text_load charset enc value).
